@@ -266,7 +266,7 @@ def image_cases(draw):
 
 
 def checks(tier):
-    n = {"quick": (1600, 1200), "thorough": (48000, 36000)}.get(tier, (10, 10))
+    n = {"quick": (2400, 1800), "thorough": (48000, 36000)}.get(tier, (10, 10))
     return [
         Check("tables", fn_table, strategy=table_cases(), examples=n[0]),
         Check("images", fn_image, strategy=image_cases(), examples=n[1]),
